@@ -338,4 +338,124 @@ example : checkCodes 0
      56, 55, 54, 53, 52, 51, 50, 93, 123, 50, 125, 40, 58, 40, 48, 40, 92, 46, 91, 48, 45, 57, 93, 43, 41, 63, 124,
      49, 40, 92, 46, 48, 43, 41, 63, 41, 41, 36] = false := by decide +kernel
 
+/-! ### other spellings of the seven literals
+
+The seven literals as a maintainer might rewrite them (unrolled `{2}`, `(?:…)` groups, `[+]` / `[.]` for
+`\+` / `\.`, reordered class, `{1,}` for `+`, `{0,1}` for `?`, `(?:s|o)` for `[so]`, `\A…\z` for `^…$`): each parses
+and the checker finds it equivalent to the same expected tree. -/
+
+-- `^[AKQJT98765432][AKQJT98765432]-[AKQJT98765432][AKQJT98765432](:(0(\.[0-9]+)?|1(\.0+)?))?$`
+example : checkCodes 0
+    [94, 91, 65, 75, 81, 74, 84, 57, 56, 55, 54, 53, 52, 51, 50, 93, 91, 65, 75, 81, 74, 84, 57, 56, 55, 54, 53, 52,
+     51, 50, 93, 45, 91, 65, 75, 81, 74, 84, 57, 56, 55, 54, 53, 52, 51, 50, 93, 91, 65, 75, 81, 74, 84, 57, 56,
+     55, 54, 53, 52, 51, 50, 93, 40, 58, 40, 48, 40, 92, 46, 91, 48, 45, 57, 93, 43, 41, 63, 124, 49, 40, 92, 46,
+     48, 43, 41, 63, 41, 41, 63, 36] = true := by decide +kernel
+-- `^[AKQJT98765432]{2}[so]-[AKQJT98765432]{2}[so](?::(?:0(?:\.[0-9]+)?|1(?:\.0+)?))?$`
+example : checkCodes 1
+    [94, 91, 65, 75, 81, 74, 84, 57, 56, 55, 54, 53, 52, 51, 50, 93, 123, 50, 125, 91, 115, 111, 93, 45, 91, 65, 75,
+     81, 74, 84, 57, 56, 55, 54, 53, 52, 51, 50, 93, 123, 50, 125, 91, 115, 111, 93, 40, 63, 58, 58, 40, 63, 58,
+     48, 40, 63, 58, 92, 46, 91, 48, 45, 57, 93, 43, 41, 63, 124, 49, 40, 63, 58, 92, 46, 48, 43, 41, 63, 41, 41,
+     63, 36] = true := by decide +kernel
+-- `^[AKQJT98765432]{2}\+(:(0(\.[0-9]+)?|1(\.0+)?))?$`
+example : checkCodes 2
+    [94, 91, 65, 75, 81, 74, 84, 57, 56, 55, 54, 53, 52, 51, 50, 93, 123, 50, 125, 92, 43, 40, 58, 40, 48, 40, 92,
+     46, 91, 48, 45, 57, 93, 43, 41, 63, 124, 49, 40, 92, 46, 48, 43, 41, 63, 41, 41, 63, 36] = true := by decide +kernel
+-- `^[AKQJT98765432]{2}[so][+](:(0([.][0123456789]+)?|1([.]0+)?))?$`
+example : checkCodes 3
+    [94, 91, 65, 75, 81, 74, 84, 57, 56, 55, 54, 53, 52, 51, 50, 93, 123, 50, 125, 91, 115, 111, 93, 91, 43, 93, 40,
+     58, 40, 48, 40, 91, 46, 93, 91, 48, 49, 50, 51, 52, 53, 54, 55, 56, 57, 93, 43, 41, 63, 124, 49, 40, 91, 46,
+     93, 48, 43, 41, 63, 41, 41, 63, 36] = true := by decide +kernel
+-- `^[2-9AJKQT]{2}(:(0(\.[0-9]+)?|1(\.0+)?))?$`
+example : checkCodes 4
+    [94, 91, 50, 45, 57, 65, 74, 75, 81, 84, 93, 123, 50, 125, 40, 58, 40, 48, 40, 92, 46, 91, 48, 45, 57, 93, 43,
+     41, 63, 124, 49, 40, 92, 46, 48, 43, 41, 63, 41, 41, 63, 36] = true := by decide +kernel
+-- `^[AKQJT98765432]{2}(?:s|o)(:(0(\.[0-9]{1,})?|1(\.0{1,})?)){0,1}$`
+example : checkCodes 5
+    [94, 91, 65, 75, 81, 74, 84, 57, 56, 55, 54, 53, 52, 51, 50, 93, 123, 50, 125, 40, 63, 58, 115, 124, 111, 41,
+     40, 58, 40, 48, 40, 92, 46, 91, 48, 45, 57, 93, 123, 49, 44, 125, 41, 63, 124, 49, 40, 92, 46, 48, 123, 49,
+     44, 125, 41, 63, 41, 41, 123, 48, 44, 49, 125, 36] = true := by decide +kernel
+-- `\A[AKQJT98765432][shdc][AKQJT98765432][shdc](:(0(\.[0-9]+)?|1(\.0+)?))?\z`
+example : checkCodes 6
+    [92, 65, 91, 65, 75, 81, 74, 84, 57, 56, 55, 54, 53, 52, 51, 50, 93, 91, 115, 104, 100, 99, 93, 91, 65, 75, 81,
+     74, 84, 57, 56, 55, 54, 53, 52, 51, 50, 93, 91, 115, 104, 100, 99, 93, 40, 58, 40, 48, 40, 92, 46, 91, 48, 45,
+     57, 93, 43, 41, 63, 124, 49, 40, 92, 46, 48, 43, 41, 63, 41, 41, 63, 92, 122] = true := by decide +kernel
+
+/-- the pattern parses, and the checker does not find it equivalent to the `i`-th expected tree -/
+def checkParsesButDiffers (i : Nat) (cs : List Nat) : Bool :=
+  match Rx.parse cs with
+  | some r => !Rx.equivCheck FUEL r (expected.getD i Re.empty)
+  | none => false
+
+/-! spellings that are outside the subset (`parse = none`: `\Z`, `{2,1}`, reversed range, flags, named group,
+negated class, set operator, `\d`, lazy forms, count above 64, `\b`) or that change the language (parsed, then
+refused by the checker) -/
+
+-- `\A[AKQJT98765432][shdc][AKQJT98765432][shdc](:(0(\.[0-9]+)?|1(\.0+)?))?\Z`
+example : Rx.parse
+    [92, 65, 91, 65, 75, 81, 74, 84, 57, 56, 55, 54, 53, 52, 51, 50, 93, 91, 115, 104, 100, 99, 93, 91, 65, 75, 81,
+     74, 84, 57, 56, 55, 54, 53, 52, 51, 50, 93, 91, 115, 104, 100, 99, 93, 40, 58, 40, 48, 40, 92, 46, 91, 48, 45,
+     57, 93, 43, 41, 63, 124, 49, 40, 92, 46, 48, 43, 41, 63, 41, 41, 63, 92, 90] = none := by decide +kernel
+-- `^[2-9AJKQT]{2,1}(:(0(\.[0-9]+)?|1(\.0+)?))?$`
+example : Rx.parse
+    [94, 91, 50, 45, 57, 65, 74, 75, 81, 84, 93, 123, 50, 44, 49, 125, 40, 58, 40, 48, 40, 92, 46, 91, 48, 45, 57,
+     93, 43, 41, 63, 124, 49, 40, 92, 46, 48, 43, 41, 63, 41, 41, 63, 36] = none := by decide +kernel
+-- `^[AKQJT98765432]{2}(?:s|o)(:(0(\.[0-9]{1,})?|1(\.0{1,})?)){1,2}$`
+example : checkParsesButDiffers 5
+    [94, 91, 65, 75, 81, 74, 84, 57, 56, 55, 54, 53, 52, 51, 50, 93, 123, 50, 125, 40, 63, 58, 115, 124, 111, 41,
+     40, 58, 40, 48, 40, 92, 46, 91, 48, 45, 57, 93, 123, 49, 44, 125, 41, 63, 124, 49, 40, 92, 46, 48, 123, 49,
+     44, 125, 41, 63, 41, 41, 123, 49, 44, 50, 125, 36] = true := by decide +kernel
+-- `^[AKQJT98765432]{2}[s-o](:(0(\.[0-9]+)?|1(\.0+)?))?$`
+example : Rx.parse
+    [94, 91, 65, 75, 81, 74, 84, 57, 56, 55, 54, 53, 52, 51, 50, 93, 123, 50, 125, 91, 115, 45, 111, 93, 40, 58, 40,
+     48, 40, 92, 46, 91, 48, 45, 57, 93, 43, 41, 63, 124, 49, 40, 92, 46, 48, 43, 41, 63, 41, 41, 63, 36] = none := by decide +kernel
+-- `^[AKQJT98765432]{2}[o-s](:(0(\.[0-9]+)?|1(\.0+)?))?$`
+example : checkParsesButDiffers 5
+    [94, 91, 65, 75, 81, 74, 84, 57, 56, 55, 54, 53, 52, 51, 50, 93, 123, 50, 125, 91, 111, 45, 115, 93, 40, 58, 40,
+     48, 40, 92, 46, 91, 48, 45, 57, 93, 43, 41, 63, 124, 49, 40, 92, 46, 48, 43, 41, 63, 41, 41, 63, 36] = true := by decide +kernel
+-- `^[AKQJT98765432]{2}(?i:s|o)(:(0(\.[0-9]+)?|1(\.0+)?))?$`
+example : Rx.parse
+    [94, 91, 65, 75, 81, 74, 84, 57, 56, 55, 54, 53, 52, 51, 50, 93, 123, 50, 125, 40, 63, 105, 58, 115, 124, 111,
+     41, 40, 58, 40, 48, 40, 92, 46, 91, 48, 45, 57, 93, 43, 41, 63, 124, 49, 40, 92, 46, 48, 43, 41, 63, 41, 41,
+     63, 36] = none := by decide +kernel
+-- `^[AKQJT98765432]{2}(?P<x>s|o)(:(0(\.[0-9]+)?|1(\.0+)?))?$`
+example : Rx.parse
+    [94, 91, 65, 75, 81, 74, 84, 57, 56, 55, 54, 53, 52, 51, 50, 93, 123, 50, 125, 40, 63, 80, 60, 120, 62, 115,
+     124, 111, 41, 40, 58, 40, 48, 40, 92, 46, 91, 48, 45, 57, 93, 43, 41, 63, 124, 49, 40, 92, 46, 48, 43, 41, 63,
+     41, 41, 63, 36] = none := by decide +kernel
+-- `^[^2-9AJKQT]{2}(:(0(\.[0-9]+)?|1(\.0+)?))?$`
+example : Rx.parse
+    [94, 91, 94, 50, 45, 57, 65, 74, 75, 81, 84, 93, 123, 50, 125, 40, 58, 40, 48, 40, 92, 46, 91, 48, 45, 57, 93,
+     43, 41, 63, 124, 49, 40, 92, 46, 48, 43, 41, 63, 41, 41, 63, 36] = none := by decide +kernel
+-- `^[2-9AJKQT&&[^A]]{2}(:(0(\.[0-9]+)?|1(\.0+)?))?$`
+example : Rx.parse
+    [94, 91, 50, 45, 57, 65, 74, 75, 81, 84, 38, 38, 91, 94, 65, 93, 93, 123, 50, 125, 40, 58, 40, 48, 40, 92, 46,
+     91, 48, 45, 57, 93, 43, 41, 63, 124, 49, 40, 92, 46, 48, 43, 41, 63, 41, 41, 63, 36] = none := by decide +kernel
+-- `^[2-9AJKQT]{2}(:(0(\.\d+)?|1(\.0+)?))?$`
+example : Rx.parse
+    [94, 91, 50, 45, 57, 65, 74, 75, 81, 84, 93, 123, 50, 125, 40, 58, 40, 48, 40, 92, 46, 92, 100, 43, 41, 63, 124,
+     49, 40, 92, 46, 48, 43, 41, 63, 41, 41, 63, 36] = none := by decide +kernel
+-- `^[2-9AJKQT]{2}(:(0(\.[0-9]+?)?|1(\.0+)?))?$`
+example : Rx.parse
+    [94, 91, 50, 45, 57, 65, 74, 75, 81, 84, 93, 123, 50, 125, 40, 58, 40, 48, 40, 92, 46, 91, 48, 45, 57, 93, 43,
+     63, 41, 63, 124, 49, 40, 92, 46, 48, 43, 41, 63, 41, 41, 63, 36] = none := by decide +kernel
+-- `^[2-9AJKQT]{2}(:(0(\.[0-9]{1,}?)?|1(\.0+)?))?$`
+example : Rx.parse
+    [94, 91, 50, 45, 57, 65, 74, 75, 81, 84, 93, 123, 50, 125, 40, 58, 40, 48, 40, 92, 46, 91, 48, 45, 57, 93, 123,
+     49, 44, 125, 63, 41, 63, 124, 49, 40, 92, 46, 48, 43, 41, 63, 41, 41, 63, 36] = none := by decide +kernel
+-- `^[2-9AJKQT]{65}$`
+example : Rx.parse
+    [94, 91, 50, 45, 57, 65, 74, 75, 81, 84, 93, 123, 54, 53, 125, 36] = none := by decide +kernel
+-- `^[AKQJT98765432]{2}[\+\-](:(0(\.[0-9]+)?|1(\.0+)?))?$`
+example : checkParsesButDiffers 2
+    [94, 91, 65, 75, 81, 74, 84, 57, 56, 55, 54, 53, 52, 51, 50, 93, 123, 50, 125, 91, 92, 43, 92, 45, 93, 40, 58,
+     40, 48, 40, 92, 46, 91, 48, 45, 57, 93, 43, 41, 63, 124, 49, 40, 92, 46, 48, 43, 41, 63, 41, 41, 63, 36] = true := by decide +kernel
+-- `^[2-9AJKQT]{2}(:(0(\.[0-9]+)?|1(\.0+)?))?\b$`
+example : Rx.parse
+    [94, 91, 50, 45, 57, 65, 74, 75, 81, 84, 93, 123, 50, 125, 40, 58, 40, 48, 40, 92, 46, 91, 48, 45, 57, 93, 43,
+     41, 63, 124, 49, 40, 92, 46, 48, 43, 41, 63, 41, 41, 63, 92, 98, 36] = none := by decide +kernel
+-- `^[2-9AJKQT]{2}(:(0(\.[0-9]+)?|1(\.0*)?))?$`
+example : checkParsesButDiffers 4
+    [94, 91, 50, 45, 57, 65, 74, 75, 81, 84, 93, 123, 50, 125, 40, 58, 40, 48, 40, 92, 46, 91, 48, 45, 57, 93, 43,
+     41, 63, 124, 49, 40, 92, 46, 48, 42, 41, 63, 41, 41, 63, 36] = true := by decide +kernel
+
 end EspadaVerif.C09Regex
